@@ -644,6 +644,12 @@ func init() {
 	sc := ledger.Scenario{Prop: "C28", Weights: map[string]int{"send": 8, "call": 10, "pour": 4, "data": 1, "replay": 1, "block": 7, "clock": 1}, Lo: 20, Hi: 90, Mixed: true}
 	sc.Setup = func(w *ledger.World, r *ledger.Runner) []ledger.Observer {
 		r.SaveAll = true
+		if _, ok := r.Ops["c27.churn"]; !ok {
+			// replays of churn findings stay executable whatever workload index the linked binary maps to
+			registerChurn()
+			m := newChurnModel()
+			r.Ops["c27.churn"] = churnOpHandler(w, &m)
+		}
 		o := &oracle28{rp: w.NewReplica("lag")}
 		r.Ops["c28.dir"] = func(r *ledger.Runner, st sim.Step) {
 			o.dir = dir28{mode: int(st.Int(0, 0)) % 3, kind: int(st.Int(1, 0)), codec: int(st.Int(2, 0)) % 2, a: st.Int(3, 0), b: st.Int(4, 0), restart: st.Int(5, 0) != 0, catchup: int(st.Int(6, 0)) % 2}
